@@ -143,6 +143,7 @@ func lemma_deps_rdeps_inverse(g *DirectedTargetGraph, n, d model.BuildNode) ([]m
 //@   ensures [callback_after_ready] callbackRuns > old(callbackRuns) ==> received(info.ready)
 //@   ensures [success_recorded_only_after_callback] (has(w.completions, labelOf(node)) && !old(has(w.completions, labelOf(node)))) ==> callbackRuns > old(callbackRuns)
 //@   ensures [resolved_unless_cancelled] callbackRuns > old(callbackRuns) ==> has(w.completions, labelOf(node)) || isCanceledErr(err)
+//@   ghostset nodeRoutineSpawns := nodeRoutineSpawns + 1
 
 // C12/C03: routines exist only for selected nodes (spawn precondition of nodeRoutine); C04: walker state is touched under
 // its mutex or before the first routine is started.
@@ -158,12 +159,15 @@ func lemma_deps_rdeps_inverse(g *DirectedTargetGraph, n, d model.BuildNode) ([]m
 
 //@ func (*Walker).Walk(w, ctx) (m, err)
 //@   note exclusive w
+//@   ensures [waits_for_exactly_the_started_routines] wgAdds - old(wgAdds) == nodeRoutineSpawns - old(nodeRoutineSpawns)
 //@   ensures [cancellation_returns_without_waiting_for_routines] !(received(doneCh(ctx)) && received(done))
 //@   requires [graph] nodesWF(w.graph) && absEdges(w.graph) && absOutEdges(w.graph) && endpointsAreNodes(w.graph) && w.completions != nil && w.nodeInfoMap != nil
 //@ loop #1
+//@   invariant [nothing_counted_yet] wgAdds == old(wgAdds) && nodeRoutineSpawns == old(nodeRoutineSpawns)
 //@   invariant [registered_are_selected] forall j int :: {registrations[j]} 0 <= j && j < len(registrations) ==> isNode(registrations[j].node) && isSel(registrations[j].node)
 //@   invariant [map_allocated] w.nodeInfoMap != nil
 //@ loop #2
+//@   invariant [every_counted_routine_is_started] wgAdds - old(wgAdds) == nodeRoutineSpawns - old(nodeRoutineSpawns)
 //@   invariant [registered_are_selected] forall j int :: {registrations[j]} 0 <= j && j < len(registrations) ==> isNode(registrations[j].node) && isSel(registrations[j].node)
 
 // C15/C01: the targets a node directly depends on, where an alias stands for the target(s) it points to
